@@ -41,7 +41,7 @@ import dawgie.context
 import json
 import os
 
-from datetime import UTC, datetime, timedelta
+from datetime import UTC, date, datetime, timedelta
 
 
 def _load(after: datetime, before: datetime, journal: str, succeeded: bool):
@@ -138,23 +138,24 @@ def find(
     before = datetime.now(UTC) if before is None else before
     entries = []
     oldest = after > datetime(1980, 1, 1, tzinfo=UTC) and limit is not None
-    one = timedelta(seconds=1)
     oneday = timedelta(days=1)
-    while (limit is None or len(entries) < limit) and before > after:
+    # The days are walked backwards with a cursor of their own. The window
+    # (after, before) handed to _load() has to stay what the caller asked for
+    # or the time of day of before is applied to every earlier day as well.
+    day = before.date()
+    while (limit is None or len(entries) < limit) and day >= after.date():
         journal = os.path.join(
-            dawgie.context.data_dbs, 'chronicles', str(before.year)
+            dawgie.context.data_dbs, 'chronicles', str(day.year)
         )
         if os.path.isdir(journal):
-            journal = os.path.join(journal, f'{before.month:02d}')
+            journal = os.path.join(journal, f'{day.month:02d}')
             if os.path.isdir(journal):
-                journal = os.path.join(journal, f'{before.day:02d}')
+                journal = os.path.join(journal, f'{day.day:02d}')
                 if os.path.isdir(journal):
                     entries.extend(_load(after, before, journal, succeeded))
-                before = before - oneday
+                day = day - oneday
             else:
-                before = (
-                    datetime(before.year, before.month, 1, tzinfo=UTC) - one
-                )
+                day = date(day.year, day.month, 1) - oneday
         else:
-            before = datetime(before.year, 1, 1, tzinfo=UTC) - one
+            day = date(day.year, 1, 1) - oneday
     return entries[-limit:] if oldest else entries[:limit]
